@@ -86,8 +86,12 @@
 //     the algorithm and the bytes written (`io.Copy(h, r)`, `h.Write(b)`; `h.Sum(b)` through the Ext field
 //     `crypto_Hash_Sum`); a local closure handed to an opaque function (a function-typed parameter) is a STATE MACHINE over
 //     the captured variables it assigns: the external gets the state type, the step function and the state and returns the
-//     state it leaves — an arbitrary function of these; that it only calls the step function is a hypothesis of theorems,
-//     never of the translation. A closure name used in any other way is rejected.
+//     state it leaves — an arbitrary function of these; that it only calls the step function is never an assumption of the
+//     translation. A function-typed parameter of a TRANSLATED function is the same triple, a call of it applies the step
+//     function to the current state; a function literal as the argument (top level of the body) is a closure named after
+//     the parameter. A closure name / function-typed parameter used in any other way is rejected.
+//   - a translated function that needs the Ext structures of two packages takes its own package's, which then has a field
+//     holding the other package's structure (`pkcs7 : pkcs7.Ext` in `authenticode.Ext`; the callee is handed `X.pkcs7`).
 package main
 
 import (
@@ -336,12 +340,31 @@ func ensureStruct(n ast.Node, nm string, s *types.Struct) {
 	fmt.Fprintf(&b, "structure %s where\n", nm)
 	for i := 0; i < s.NumFields(); i++ {
 		f := s.Field(i)
+		if ft, ok := fieldOverride[nm+"."+f.Name()]; ok {
+			fmt.Fprintf(&b, "  %s : %s\n", lname(f.Name()), ft)
+			continue
+		}
+		if loadStdField[nm+"."+f.Name()] {
+			stdFieldLoad++
+		}
 		fmt.Fprintf(&b, "  %s : %s\n", lname(f.Name()), fieldType(n, f.Type()))
+		if loadStdField[nm+"."+f.Name()] {
+			stdFieldLoad--
+		}
 	}
 	b.WriteString("deriving DecidableEq, Repr\n")
 	structs[nm] = b.String()
 	structOrd = append(structOrd, nm)
 }
+
+// loadStdField: the struct fields whose standard-library struct type is loaded (sect.go: pkix.AlgorithmIdentifier) instead
+// of staying Opaque as in every other field; stdFieldLoad > 0 while the type of such a field is computed
+var loadStdField = map[string]bool{"authenticode.Authenticode.Algid": true}
+var stdFieldLoad int
+
+// fieldOverride: `<structure>.<field>` -> Lean type, for the fields of standard-library structs that are loaded with a
+// representation that struct fields do not get otherwise (sect.go)
+var fieldOverride = map[string]string{}
 
 // fieldType: like leanType, but a field of a type outside the supported subset is kept as `Opaque`
 // (a function that reads such a field is then untranslatable, one that ignores it is not)
@@ -520,6 +543,10 @@ type fnTrans struct {
 	ifaceLits map[types.Object][]ast.Expr
 	sites     map[*ast.CallExpr]int // interface-method call sites -> index
 	bounded   []*boundedFor         // the evidently bounded three-clause loops around the current statement
+	// function literals written as an argument of a call that is a top-level statement of the function body, and the
+	// name of the parameter they are handed to (fnarg.go)
+	topLevelArg map[*ast.FuncLit]bool
+	litName     map[*ast.FuncLit]string
 }
 
 type rangeInfo struct {
@@ -831,6 +858,9 @@ func (t *fnTrans) expr(e ast.Expr) string {
 		return t.expr(x.X)
 	case *ast.Ident:
 		o := t.pi.info.Uses[x]
+		if _, ok := fnParamState[o]; ok {
+			fail(e, "function-typed parameter %s used as a value (only calls of it are translated)", x.Name)
+		}
 		if k, ok := t.keyConst[o]; ok {
 			return fmt.Sprintf("(%d : Int)", k)
 		}
@@ -1360,11 +1390,7 @@ func (t *fnTrans) callPure(fd *fnDecl, recv ast.Expr, c *ast.CallExpr) string {
 		parts = append(parts, "E")
 	}
 	if fd.usesX != "" {
-		if t.fd.usesX != "" && t.fd.usesX != fd.usesX {
-			fail(nil, "%s and its callee %s take different Ext structures", t.fd.leanName, fd.leanName)
-		}
-		t.fd.usesX = fd.usesX
-		parts = append(parts, "X")
+		parts = append(parts, t.xArg(c, fd.usesX))
 	}
 	if recv != nil {
 		parts = append(parts, t.expr(recv))
@@ -1415,6 +1441,12 @@ func markMutCall(info *types.Info, e ast.Expr, into map[types.Object]bool) {
 	c, ok := e.(*ast.CallExpr)
 	if !ok {
 		return
+	}
+	if id, ok := c.Fun.(*ast.Ident); ok {
+		// a call of a function-typed parameter of the function being translated: the closure's state changes (fnarg.go)
+		if sv, ok := fnParamState[info.Uses[id]]; ok {
+			into[sv] = true
+		}
 	}
 	// readers / writers consumed or appended to, and the destination of binary.Read
 	switch qualName(c, info) {
@@ -1705,7 +1737,7 @@ func (t *fnTrans) mutCall(fd *fnDecl, recv ast.Expr, args []ast.Expr, tmp string
 		parts = append(parts, "E")
 	}
 	if fd.usesX != "" {
-		parts = append(parts, "X")
+		parts = append(parts, t.xArg(recv, fd.usesX))
 	}
 	parts = append(parts, t.expr(recv))
 	for _, a := range args {
@@ -2537,8 +2569,35 @@ func computeUsesExt() {
 }
 
 func computeUsesX() {
-	// the Ext structure of a translated function is the one of its own package; it holds a field for every
-	// opaque function that a translated function of that package calls
+	// the Ext structure of a translated function is the one of its own package (it holds a field for every opaque
+	// function that a translated function of that package calls, and the intrinsics of fnarg.go); a function that
+	// needs nothing of its own package's and calls translated functions that all take ONE other structure takes that
+	// one; a function that needs more than one takes its own package's, which gets a FIELD holding the other
+	// package's structure (`pkcs7 : pkcs7.Ext` in `authenticode.Ext`; the callee is handed `X.pkcs7`)
+	local := map[*fnDecl]bool{}
+	for _, fd := range targets {
+		if fd.opaque {
+			continue
+		}
+		ast.Inspect(fd.decl.Body, func(n ast.Node) bool {
+			if c, ok := n.(*ast.CallExpr); ok {
+				t := &fnTrans{fd: fd, pi: fd.pi}
+				if in := intrinsicCall(fd.pi.info, c); in != "" {
+					// a standard-library function that is a field of the package's Ext structure (fnarg.go)
+					addIntrinsic(fd.pi.short, in)
+					local[fd] = true
+				}
+				if cd, _ := t.callee(c); cd != nil && cd.opaque {
+					addExtField(fd.pi.short, cd)
+					local[fd] = true
+				}
+			}
+			return true
+		})
+		if local[fd] {
+			fd.usesX = fd.pi.short
+		}
+	}
 	changed := true
 	for changed {
 		changed = false
@@ -2546,41 +2605,68 @@ func computeUsesX() {
 			if fd.opaque {
 				continue
 			}
+			wants := map[string]bool{}
+			if local[fd] {
+				wants[fd.pi.short] = true
+			}
 			ast.Inspect(fd.decl.Body, func(n ast.Node) bool {
 				if c, ok := n.(*ast.CallExpr); ok {
 					t := &fnTrans{fd: fd, pi: fd.pi}
-					if in := intrinsicCall(fd.pi.info, c); in != "" {
-						// a standard-library function that is a field of the package's Ext structure (fnarg.go)
-						addIntrinsic(fd.pi.short, in)
-						if fd.usesX == "" {
-							fd.usesX = fd.pi.short
-							changed = true
-						} else if fd.usesX != fd.pi.short && fd.xConflict == "" {
-							fd.xConflict = fmt.Sprintf("external functions of two Ext structures (%s, %s) in one function", fd.usesX, fd.pi.short)
-						}
-					}
-					if cd, _ := t.callee(c); cd != nil {
-						want := ""
-						if cd.opaque {
-							want = fd.pi.short
-							addExtField(want, cd)
-						} else if cd.usesX != "" {
-							want = cd.usesX
-						}
-						if want != "" {
-							if fd.usesX == "" {
-								fd.usesX = want
-								changed = true
-							} else if fd.usesX != want && fd.xConflict == "" {
-								fd.xConflict = fmt.Sprintf("external functions of two Ext structures (%s, %s) in one function", fd.usesX, want)
-							}
-						}
+					if cd, _ := t.callee(c); cd != nil && !cd.opaque && cd.usesX != "" {
+						wants[cd.usesX] = true
 					}
 				}
 				return true
 			})
+			want := ""
+			switch {
+			case len(wants) == 1:
+				for w := range wants {
+					want = w
+				}
+			case len(wants) > 1:
+				want = fd.pi.short
+				for w := range wants {
+					if w != want {
+						addExtNested(want, w)
+					}
+				}
+			}
+			if want != fd.usesX {
+				fd.usesX = want
+				changed = true
+			}
 		}
 	}
+}
+
+// extNested: Ext home package -> the packages whose Ext structure is a field of the home package's
+var extNested = map[string][]string{}
+
+func addExtNested(home, other string) {
+	for _, o := range extNested[home] {
+		if o == other {
+			return
+		}
+	}
+	extNested[home] = append(extNested[home], other)
+	sort.Strings(extNested[home])
+}
+
+// xArg: the Ext argument for a translated callee that takes the Ext structure of package `want`
+func (t *fnTrans) xArg(n ast.Node, want string) string {
+	if t.fd.usesX == want {
+		return "X"
+	}
+	if t.fd.usesX == t.fd.pi.short {
+		for _, o := range extNested[t.fd.usesX] {
+			if o == want {
+				return "X." + want
+			}
+		}
+	}
+	fail(n, "%s takes the Ext structure of %q, its callee needs the one of %q", t.fd.leanName, t.fd.usesX, want)
+	return ""
 }
 
 func translate(fd *fnDecl) {
@@ -2598,6 +2684,35 @@ func translate(fd *fnDecl) {
 		alias: map[types.Object]ast.Expr{}, keyConst: map[types.Object]int{}, closures: map[types.Object]*closureInfo{},
 		ifaceLits: map[types.Object][]ast.Expr{}}
 	t.sites = ifaceSites(t, fd.decl.Body)
+	t.topLevelArg, t.litName = map[*ast.FuncLit]bool{}, map[*ast.FuncLit]string{}
+	for _, st := range fd.decl.Body.List {
+		var ce *ast.CallExpr
+		switch x := st.(type) {
+		case *ast.ReturnStmt:
+			if len(x.Results) == 1 {
+				ce, _ = x.Results[0].(*ast.CallExpr)
+			}
+		case *ast.AssignStmt:
+			if len(x.Rhs) == 1 {
+				ce, _ = x.Rhs[0].(*ast.CallExpr)
+			}
+		case *ast.ExprStmt:
+			ce, _ = x.X.(*ast.CallExpr)
+		}
+		if ce == nil {
+			continue
+		}
+		csig, _ := fd.pi.info.Types[ce.Fun].Type.(*types.Signature)
+		for i, a := range ce.Args {
+			if fl, ok := a.(*ast.FuncLit); ok {
+				t.topLevelArg[fl] = true
+				t.litName[fl] = "fn"
+				if csig != nil && i < csig.Params().Len() && csig.Params().At(i).Name() != "" {
+					t.litName[fl] = csig.Params().At(i).Name()
+				}
+			}
+		}
+	}
 	if fd.xConflict != "" {
 		fail(fd.decl, "%s", fd.xConflict)
 	}
@@ -2624,11 +2739,27 @@ func translate(fd *fnDecl) {
 			params = append(params, fmt.Sprintf("(_recv : %s)", leanType(fd.decl, sig.Recv().Type())))
 		}
 	}
+	var stateObjs []types.Object
+	var stateTys []string
 	for i := 0; i < sig.Params().Len(); i++ {
 		p := sig.Params().At(i)
 		nm := "_"
 		if p.Name() != "" && p.Name() != "_" {
 			nm = t.name(p)
+		}
+		if fs, ok := p.Type().Underlying().(*types.Signature); ok {
+			// a function-typed parameter: state type, step function, state (fnarg.go)
+			if nm == "_" {
+				fail(fd.decl, "unnamed function-typed parameter")
+			}
+			bs, sigma := fnParamType(fd.decl, fs, len(stateObjs))
+			sv := types.NewVar(p.Pos(), fd.pi.pkg, p.Name()+"_s", types.Typ[types.Invalid])
+			fnParamState[p] = sv
+			fnParamSigma[sv] = sigma
+			params = append(params, bs[0], fmt.Sprintf("(%s : %s)", nm, bs[1]), fmt.Sprintf("(%s : %s)", t.name(sv), bs[2]))
+			stateObjs = append(stateObjs, sv)
+			stateTys = append(stateTys, sigma)
+			continue
 		}
 		params = append(params, fmt.Sprintf("(%s : %s)", nm, leanType(fd.decl, p.Type())))
 	}
@@ -2641,6 +2772,9 @@ func translate(fd *fnDecl) {
 		t.mutObjs = append(t.mutObjs, p)
 		rtys = append(rtys, leanType(fd.decl, p.Type()))
 	}
+	// then the states that the closures behind the function-typed parameters are left in
+	t.mutObjs = append(t.mutObjs, stateObjs...)
+	rtys = append(rtys, stateTys...)
 	for i := 0; i < sig.Results().Len(); i++ {
 		r := sig.Results().At(i)
 		if r.Name() != "" {
@@ -2855,6 +2989,13 @@ func extStructs() string {
 			pk = append(pk, p)
 		}
 	}
+	for p := range extNested {
+		_, ok1 := extFields[p]
+		_, ok2 := extIntrinsics[p]
+		if !ok1 && !ok2 {
+			pk = append(pk, p)
+		}
+	}
 	// packages in the order of their first opaque function in targets.json
 	rank := func(fd *fnDecl) int {
 		for i, o := range targets {
@@ -2882,12 +3023,41 @@ func extStructs() string {
 		}
 		return pk[i] < pk[j]
 	})
+	// a structure that is a field of another one comes first
+	for moved := true; moved; {
+		moved = false
+		pos := map[string]int{}
+		for i, p := range pk {
+			pos[p] = i
+		}
+	outer:
+		for i, p := range pk {
+			for _, q := range extNested[p] {
+				if j, ok := pos[q]; ok && j > i {
+					np := append([]string{}, pk[:i]...)
+					np = append(np, q)
+					for k := i; k < len(pk); k++ {
+						if k != j {
+							np = append(np, pk[k])
+						}
+					}
+					pk = np
+					moved = true
+					break outer
+				}
+			}
+		}
+	}
 	var b strings.Builder
 	for _, p := range pk {
 		if nm := extStructName(p); nm != p+".Ext" {
 			fmt.Fprintf(&b, "/-- functions that the translated code of package %s calls and that are not translated (external\n    behaviour, a parameter of the translated code) -/\nstructure %s where\n", p, nm)
 		} else {
 			fmt.Fprintf(&b, "/-- functions of package %s that are not translated (external behaviour, a parameter of the translated code) -/\nstructure %s.Ext where\n", p, p)
+		}
+		for _, q := range extNested[p] {
+			// the Ext structure of another package, for the translated functions of that package that are called
+			fmt.Fprintf(&b, "  %s : %s\n", q, extStructName(q))
 		}
 		for _, fd := range extFields[p] {
 			sig := fd.obj.Type().(*types.Signature)
